@@ -45,8 +45,8 @@ Definition flt_to_int (f : flt) : Z :=
 Section SeqEnc.
 Variable o : opts.
 
-(* iseq of Less: e[i].v.(map[string]interface{})[seqK] as int, else as float64, else 9999999.
-   (The unchecked assertion to map is handled by [seq_sort].) *)
+(* iseq of Less: the value's [seqK] entry as int, else as float64, else 9999999; a value that is
+   not a map has no sequence number and sorts last (comma-ok assertions, fix 3cc484a) *)
 Definition seq_num (v : value) : Z :=
   match v with
   | VMap m => match lookup (seqK o) m with
@@ -68,11 +68,9 @@ Fixpoint ins_desc {A} (key : A -> Z) (x : A) (racc : list A) : list A :=
 Definition isort {A} (key : A -> Z) (l : list A) : list A :=
   rev (fold_left (fun racc x => ins_desc key x racc) l []).
 
-(* sort.Sort(elemListSeq(kv)): with two or more entries Less is evaluated on every entry and
-   panics on one whose value is not a map; with fewer it is never called *)
+(* sort.Sort(elemListSeq(kv)); Less never panics *)
 Definition seq_sort {A} (val : A -> value) (l : list A) : res (list A) :=
-  if (2 <=? length l) && negb (forallb (fun x => is_map (val x)) l) then Panic
-  else Ok (isort (fun x => seq_num (val x)) l).
+  Ok (isort (fun x => seq_num (val x)) l).
 
 Fixpoint sconcat (l : list (res (list sitem))) : res (list sitem) :=
   match l with
@@ -139,14 +137,23 @@ Definition scalar_items (key : str) (x : str) : list sitem :=
        | _ => [SI (IOpen key []); SI (IText x); SI (IClose key)]
        end.
 
+(* the text written right after the start tag, ahead of the sub-elements (fix 3cc484a):
+   if tv, ok := val[textK]; ok && tv != nil { string: escaped; otherwise %v } *)
+Definition lead_text (val : entries) : list sitem :=
+  match lookup (textK o) val with
+  | None | Some VNil => []
+  | Some (VStr x) => [SI (IText (esc o x))]
+  | Some v => [SI (IText (fmt_v v))]
+  end.
+
 Fixpoint senc (value : value) (key : str) {struct value} : res (list sitem) :=
   match value with
   | VMap val =>
-      (* everything except attributes and the sequence number, lists unrolled; the encodings of
-         the members are computed first (structural recursion), selected and sorted below *)
+      (* everything except attributes, the sequence number and the text, lists unrolled; the encodings
+         of the members are computed first (structural recursion), selected and sorted below *)
       let kids : list (str * Mxj.Base.Value.value * res (list sitem)) :=
         flat_map (fun kv =>
-                    if str_eqb (fst kv) (attrK o) || str_eqb (fst kv) (seqK o) then []
+                    if str_eqb (fst kv) (attrK o) || str_eqb (fst kv) (seqK o) || str_eqb (fst kv) (textK o) then []
                     else match snd kv with
                          | VList l => map (fun x => (fst kv, x, senc x (fst kv))) l
                          | _ => [(fst kv, snd kv, senc (snd kv) (fst kv))]
@@ -169,7 +176,7 @@ Fixpoint senc (value : value) (key : str) {struct value} : res (list sitem) :=
           let general :=
             bind (seq_sort (fun t => snd (fst t)) kids) (fun sorted =>
             bind (sconcat (map snd sorted)) (fun body =>
-              Ok (SI (IOpen key attrs) :: body ++ [SI (IClose key)]))) in
+              Ok (SI (IOpen key attrs) :: lead_text val ++ body ++ [SI (IClose key)]))) in
           match lookup (textK o) val with
           | Some v =>
               if Nat.eqb n (if haveAttrs then 3 else 2) && seqOK then
@@ -191,7 +198,7 @@ Fixpoint senc (value : value) (key : str) {struct value} : res (list sitem) :=
 
 (* ---------------- MapSeq.Xml / MapSeq.XmlIndent root handling ---------------- *)
 
-(* MapSeq.Xml(rootTag...); the xmlCheckIsValid block of Xml decodes the EMPTY string *s, so it never fails *)
+(* MapSeq.Xml(rootTag...) with xmlCheckIsValid off (the validity check is C05's subject) *)
 Definition seq_xml_items (m : entries) (rootTag : option str) : res (list sitem) :=
   match rootTag with
   | Some rt => senc (VMap m) rt
